@@ -7,6 +7,8 @@
 (*       D,              (enumI)       #define D (e)           (macroP)    *)
 (*     };                (close)       #define D e             (macroB)    *)
 (*                                     extern char D[e];       (array)     *)
+(*     const T D = init;  (tconst)  T a narrow type, init possibly outside *)
+(*                                  T's range or a floating literal        *)
 (* whose initialiser is written over literals and REFERENCES to earlier    *)
 (* declarations; the state carries, for every declaration, the value a C++ *)
 (* compiler gives it.  An enumerator without initialiser is 0 when first   *)
@@ -17,6 +19,9 @@
 (* the operators around the reference (Splice, by the precedence table of  *)
 (* ConstExpr).  Only well-formed units are generated: every initialiser is *)
 (* Defined, array bounds are positive, enumerators fit the underlying type.*)
+(* A constant of a narrow type HAS THE VALUE OF ITS INITIALISER CONVERTED   *)
+(* TO ITS TYPE (const unsigned short US = -1 is 65535, const bool B = 5 is *)
+(* 1, const int I = 3.5 is 3); that value is what every reference sees.    *)
 (* Enums are plain, scoped (`enum class`), with a fixed underlying type    *)
 (* (`: unsigned char`) or both (`enum class : short`); a reference to an   *)
 (* enumerator from outside its enum is spelled qualified / converted by    *)
@@ -33,6 +38,9 @@ CONSTANTS Lits,        \* literal operands
           Forms,       \* subset of {"lit", "ref", "neg", "rl", "lr", "rr", "cc"}: initialiser shapes
           OpenKinds,   \* subset of {"open", "openC", "openU", "openCS"}: enum / enum class / : unsigned char / class : short
           Kinds,       \* subset of {"enumE","enumI","const","constexpr","macroP","macroB","array"}
+          TTypes,      \* subset of AllTTypes: declared types of "tconst" constants
+          TInits,      \* initialisers of "tconst" constants: <<v, frac>> = the literal v (frac FALSE) or v.5
+          MaxT,        \* bound on the number of "tconst" declarations
           MaxDecls,    \* bound on the number of value-carrying declarations
           MaxEnums     \* bound on the number of enums
 
@@ -41,7 +49,21 @@ VARIABLES decls,       \* sequence of [k, e, v, bb, mu]
           nEnum
 vars == <<decls, inEnum, nEnum>>
 
-ValueKinds == {"enumE", "enumI", "const", "constexpr", "macroP", "macroB"}
+ValueKinds == {"enumE", "enumI", "const", "constexpr", "macroP", "macroB", "tconst"}
+AllTTypes == {"bool", "char", "schar", "uchar", "short", "ushort", "int"}
+NT == Cardinality({i \in 1..Len(decls) : decls[i].k = "tconst"})
+
+\* conversion of an integer to a narrow type: modulo 2^N (C++20; what two's complement compilers do)
+WrapS(v, m) == ((v + m \div 2) % m) - m \div 2
+Conv(ty, v) ==
+  CASE ty = "bool"  -> B2I(v # 0)
+    [] ty \in {"char", "schar"} -> WrapS(v, 256)
+    [] ty = "uchar"  -> v % 256
+    [] ty = "short"  -> WrapS(v, 65536)
+    [] ty = "ushort" -> v % 65536
+    [] ty = "int"    -> v
+\* a floating initialiser v.5 (v >= 0 small) is truncated toward zero, and is true for bool
+ConvInit(ty, i) == IF i[2] /\ ty = "bool" THEN 1 ELSE Conv(ty, i[1])
 NVal == Cardinality({i \in 1..Len(decls) : decls[i].k \in ValueKinds \cup {"array"}})
 Refable == {i \in 1..Len(decls) : decls[i].k \in ValueKinds}
 \* a macro whose body is a bare binary expression: references to it are textual
@@ -140,6 +162,13 @@ Value(k, e) ==
      /\ decls' = Append(decls, [k |-> k, e |-> e, v |-> r.v, bb |-> BB(k, e), mu |-> MayBeUnevaluated(e)])
   /\ UNCHANGED <<inEnum, nEnum>>
 
+TConst(ty, i) ==
+  /\ ~inEnum /\ NVal < MaxDecls /\ NT < MaxT
+  /\ (i[2] => i[1] >= 0 /\ i[1] <= 100)
+  /\ decls' = Append(decls, [k |-> "tconst", e |-> <<"tinit", ty, i[1], i[2]>>, v |-> ConvInit(ty, i),
+                             bb |-> <<>>, mu |-> FALSE])
+  /\ UNCHANGED <<inEnum, nEnum>>
+
 \* implicit enumerator: 0 when first, previous + 1 otherwise
 Implicit ==
   /\ "enumI" \in Kinds /\ inEnum /\ NVal < MaxDecls
@@ -150,7 +179,7 @@ Implicit ==
      /\ decls' = Append(decls, [k |-> "enumI", e |-> <<>>, v |-> r.v, bb |-> <<>>, mu |-> p.mu])
   /\ UNCHANGED <<inEnum, nEnum>>
 
-Next == (\E k \in OpenKinds : Open(k)) \/ Close \/ Implicit \/ \E k \in Kinds \ {"enumI"} : \E e \in Exprs : Value(k, e)
+Next == (\E k \in OpenKinds : Open(k)) \/ Close \/ Implicit \/ (\E ty \in TTypes : \E i \in TInits : TConst(ty, i)) \/ \E k \in Kinds \ {"enumI"} : \E e \in Exprs : Value(k, e)
 Spec == Init /\ [][Next]_vars
 
 ---------------------------------------------------------------------------
@@ -190,6 +219,14 @@ Depends(i) ==
   ELSE IF d.e = <<>> THEN FALSE
   ELSE d.e[1] = "cc" \/ \E j \in RefsOf(d.e) : Depends(j)
 MuOK == \A i \in 1..Len(decls) : decls[i].mu = Depends(i)
+
+\* a narrow constant holds a value of its type, and converting again changes nothing
+TConstOK ==
+  \A i \in 1..Len(decls) : decls[i].k = "tconst" =>
+     LET ty == decls[i].e[2]  v == decls[i].v IN
+     /\ Conv(ty, v) = v
+     /\ (ty = "bool" => v \in {0, 1}) /\ (ty = "uchar" => v \in 0..255) /\ (ty \in {"char", "schar"} => v \in -128..127)
+     /\ (ty = "ushort" => v \in 0..65535) /\ (ty = "short" => v \in -32768..32767)
 
 \* enumerators fit their enum's underlying type
 RangeOK == \A i \in 1..Len(decls) :
